@@ -108,9 +108,26 @@ def run(chk, replay=None):
         broken.append("the C02 driver does not build")
 
     exe = C.build_harness("c02_ops", "asan")
-    rc, sets_out, se = C.run_harness(exe, ["sets"], env=SAN)
+    # sets 9.. are generated from the seed: a replay uses the seed recorded in the replay file
+    set_seed = chk.seed
+    if replay:
+        rj = json.load(open(replay))
+        set_seed = int((rj.get("replay") or {}).get("seed", rj.get("seed", chk.seed)))
+    rc, sets_out, se = C.run_harness(exe, ["sets", str(set_seed)], env=SAN)
     ss_lines = [l for l in sets_out.splitlines() if l.startswith("ss ")]
     chk.cov["symbol_sets"] = len(ss_lines)
+    if rc != 0 or not ss_lines:
+        broken.append("the harness cannot build its symbol sets: rc=%s %s" % (rc, se[-300:]))
+    set_arity = {}
+    for l in ss_lines:           # ss <id> <cats> <n> { opcode cat parametric weight arity argcat* }
+        t = [int(x) for x in l.split()[1:]]
+        p, ars = 3, []
+        for _ in range(t[2]):
+            ars.append(t[p + 4])
+            p += 5 + t[p + 4]
+        set_arity[t[0]] = ars
+        chk.cov.setdefault("symbol_set_arities", {})[str(t[0])] = \
+            {"categories": t[1], "arities": sorted(ars), "heap": sum(1 for a in ars if a > 4)}
 
     # ---- what to run ------------------------------------------------------
     jobs = []          # (label, args, stdin)
@@ -123,7 +140,7 @@ def run(chk, replay=None):
         elif a and a[0] == "run" and r.get("scenario") is not None:   # a generated scenario
             jobs.append(("replay", ["run", a[1], str(r["scenario"]), str(r["scenario"] + 1)], None))
         elif r.get("request"):
-            jobs.append(("replay", ["replay", str(chk.seed), "25"], r["request"] + "\n"))
+            jobs.append(("replay", ["replay", str(set_seed), "25"], r["request"] + "\n"))
         probe_big = r.get("probe") == "big"
         if not jobs and not probe_big:                   # a broken proof / correspondence: run everything
             replay, probe_big = None, True
@@ -132,7 +149,7 @@ def run(chk, replay=None):
     else:
         corpus = sorted(glob.glob(os.path.join(C.ROOT, "corpus", "C02", "*.req")))
         for f in corpus:
-            jobs.append(("corpus:" + os.path.basename(f), ["replay", str(chk.seed), "8"], open(f).read()))
+            jobs.append(("corpus:" + os.path.basename(f), ["replay", str(set_seed), "8"], open(f).read()))
         chk.cov["corpus_files"] = len(corpus)
         nscen = 3000 if chk.tier == "quick" else 200000
         nshard = 4 if chk.tier == "quick" else 64
@@ -204,7 +221,7 @@ def run(chk, replay=None):
             chk.violation("the harness died (rc=%s, %s) in a real operator call (%s): %s"
                           % (d["rc"], kind, opname, (req or "(reported at exit)")[:200]),
                           {"request": req, "stderr": d["stderr"], "scenario": d["scenario"],
-                           "seed": chk.seed, "args": args}, tags=tags)
+                           "seed": set_seed, "args": args}, tags=tags)
         if not recs:
             continue
         for i, (lline, o) in enumerate(recs):
@@ -229,6 +246,16 @@ def run(chk, replay=None):
                     chk.count("mutation:pgm=%d%%" % info["pgm%"])
             if "team" in info:
                 chk.count("team:%d" % info["team"])
+            # REAL argument counts of the genes of the result, overwrites across the inline/heap boundary
+            for k, v in info.items():
+                if k.startswith("ar") and k[2:].isdigit():
+                    chk.count("result-genes:args=" + ("9+" if k == "ar9" else k[2:]), v)
+                elif k in ("shrink", "grow", "heap2heap"):
+                    chk.count("overwrite:%s:%s" % (op, k), v)
+                elif k in ("xshort", "xlong"):
+                    chk.count("overwrite:%s:parents-differ-in-length:%s-gene-kept" % (op, k[1:]), v)
+            if max(set_arity.get(info.get("set"), [0]) or [0]) > 4:
+                chk.count("calls-on-sets-with-heap-genes")
             if "pl" in info and info["pl"] > 1:
                 chk.count("patch>1")
             if o["expect"] == "bad":
@@ -241,7 +268,7 @@ def run(chk, replay=None):
                 continue
             tags = {"op": op, "set": info.get("set"), "rows": rows, "why": o["why"],
                     "flavour": FLAVOURS.get(info.get("flavour")), "lean": ans}
-            rep = {"request_line": lline, "oracle": o, "lean": ans, "seed": chk.seed, "args": args,
+            rep = {"request_line": lline, "oracle": o, "lean": ans, "seed": set_seed, "args": args,
                    "stdin": jstdin, "scenario": o["scenario"], "op_index": o["opn"]}
             if o["expect"] == "bad":
                 if cxx_ok or lean_ok:
